@@ -190,13 +190,19 @@ func (t *atree) build(log *ctxLog, srv **jrpc2.Server) jrpc2.Assigner {
 // dynMap is an assigner whose method set changes while the server lives (NewServer's documentation allows a
 // concurrency-safe assigner to do so): Names and Assign always answer from the current set.
 type dynMap struct {
-	mu sync.Mutex
-	m  handler.Map
+	mu     sync.Mutex
+	m      handler.Map
+	hidden jrpc2.Handler // served under dynHidden, not listed by Names
 }
+
+const dynHidden = "\x00add"
 
 func (d *dynMap) Assign(ctx context.Context, method string) jrpc2.Handler {
 	d.mu.Lock()
 	defer d.mu.Unlock()
+	if method == dynHidden && d.hidden != nil {
+		return d.hidden
+	}
 	return d.m.Assign(ctx, method)
 }
 func (d *dynMap) Names() []string {
@@ -435,10 +441,27 @@ func (e *c17Exec) exec(fields []string) string {
 		sv.cli = jrpc2.NewClient(cch, nil)
 		defer sv.stop()
 		first := sv.infoNames()
+		// the method is added by a NOTIFICATION's handler, which is still running when the second rpc.serverInfo
+		// call arrives: the call is handled after the notification has been (C03), so its answer lists the method
+		gate := make(chan struct{})
 		d.mu.Lock()
-		d.m[unhexf(fields[2])] = func(context.Context, *jrpc2.Request) (any, error) { return map[string]int{"tag": 999}, nil }
+		d.hidden = func(context.Context, *jrpc2.Request) (any, error) {
+			<-gate
+			d.mu.Lock()
+			d.m[unhexf(fields[2])] = func(context.Context, *jrpc2.Request) (any, error) { return map[string]int{"tag": 999}, nil }
+			d.mu.Unlock()
+			return nil, nil
+		}
 		d.mu.Unlock()
-		return first + "|" + sv.infoNames()
+		if err := sv.cli.Notify(context.Background(), dynHidden, nil); err != nil {
+			close(gate)
+			return "E?notify:" + err.Error()
+		}
+		second := make(chan string, 1)
+		go func() { second <- sv.infoNames() }()
+		time.Sleep(30 * time.Millisecond) // the call has been taken off the queue and waits behind the notification
+		close(gate)
+		return first + "|" + <-second
 	case "M":
 		t := parseTree(fields[1])
 		var srv *jrpc2.Server
